@@ -402,6 +402,32 @@ def random_test(uni, rng, idx, nops=40, nslots=8, p_reopen=0.06, p_batch=0.12, p
     return t
 
 
+def aux_async_test(uni, rng, idx, nops=16):
+    """C10, two collections with a flusher each, driven by the virtual clock: writes on both, ticks, explicit flushes, Close."""
+    g = RandGen(uni, rng, nslots=4)
+    tmo = rng.choice([1, 2, 3])
+    ops = []
+    for _ in range(nops):
+        x = rng.random()
+        if x < 0.25:
+            ops.append({"op": "put", "slot": g.slot(), "o": g.obj(valid_only=True)})
+        elif x < 0.5:
+            ops.append({"op": "xput", "slot": rng.randrange(1, 4), "k": rng.randrange(5), "a": rng.randrange(3)})
+        elif x < 0.58:
+            ops.append({"op": "xdel", "slot": rng.randrange(1, 4)})
+        elif x < 0.64:
+            ops.append({"op": "del", "slot": g.slot()})
+        elif x < 0.9:
+            ops.append({"op": "tick"})
+        elif x < 0.95:
+            ops.append({"op": "obs", "light": True})
+        else:
+            ops.append({"op": "reopen", "close": True, "create": True})
+    ops += [{"op": "tick"}] * (tmo + 1)
+    return {"id": "xas%d" % idx, "cfg": make_cfg(rng.random() < 0.5, True, rng.randrange(len(STORAGE)), thr=100000, tmo_ms=tmo * 100), "ops": ops,
+            "fields": ["K", "S"], "vclock": True, "aux": True}
+
+
 def with_aux(t, rng, p=0.25, nslots=4, nkeys=5):
     """Interleave operations on a second collection of the same database (harness/aux.go) into a sequential test.
     Returns the test unchanged when it uses features the second collection is kept out of (virtual clock, settings
@@ -529,6 +555,8 @@ def isolation_test(uni, rng, idx, nobj=5, cfgs=None):
             ops.append({"op": "mutate", "what": "search", "slot": 0})
         elif x < 0.65:
             ops.append({"op": "mutate", "what": "share", "slot": s, "n": k})
+            if k % 2 == 0:
+                ops.append({"op": "mutate", "what": "one", "slot": s, "n": k // 2})
         elif x < 0.8:
             o = g.obj(valid_only=True)
             o["pl"] = rng.randrange(uni["payloads"])
@@ -641,7 +669,12 @@ def damage_tests(uni, rng, limit=None, nslots=3):
                         # one database in three has asynchronous writes enabled (Close flushes before the damage; the persisted
                         # setting is then in force for the handle that recovers)
                         cfg = make_cfg(bool(idx % 2), True, (idx // 2) % 32) if ((idx * 2654435761) >> 7) % 3 == 0 else sync_cfg(idx % 64)
-                        out.append({"id": "dm%d" % idx, "cfg": cfg, "ops": ops, "fields": ["K", "A", "O"], "ownids": (idx // 7) % 2 == 1})
+                        t = {"id": "dm%d" % idx, "cfg": cfg, "ops": ops, "fields": ["K", "A", "O"], "ownids": (idx // 7) % 2 == 1}
+                        if (idx // 5) % 2 == 1:
+                            # a second, healthy collection is loaded in the handle that recovers: Control goes through every collection
+                            t["aux"] = True
+                            t["ops"] = [{"op": "xput", "slot": 1, "k": 1, "a": 1}, {"op": "xput", "slot": 2, "k": 2, "a": 0}] + t["ops"]
+                        out.append(t)
                         idx += 1
     if limit and len(out) > limit:
         rng.shuffle(out)
@@ -708,6 +741,16 @@ def corrupt_tests(uni, rng, n_schema, n_object, exhaustive=False):
     for v in ["", "null", "[]", "0", "\"s\"", "{", "{}", "\x00\x00", "{\"fields\":null}", "{\"index\":null}", "{\"index\":{\"fields\":{\"K\":null}}}"]:
         add({"target": "schema", "kind": "set", "val": v})
         add({"target": "object", "slot": 1, "kind": "set", "val": v})
+        # the same bytes under the name of a COMPRESSED object: not a gzip stream at all
+        add({"target": "object", "slot": 1, "kind": "set", "val": v}, gz=True, cache=len(v) % 2 == 1)
+    if not exhaustive:
+        # the head of the file is where the format lives (gzip magic / method / flags, the opening brace):
+        # always covered, whatever the sample above drew
+        for L in range(0, 12):
+            for gz in (False, True):
+                add({"target": "object", "slot": 1, "kind": "trunc", "at": L}, gz=gz, cache=L % 3 == 0)
+        for b in range(0, 32):
+            add({"target": "object", "slot": 1, "kind": "flip", "at": b}, gz=True)
     for kind, name in STRAYS:
         add({"target": "stray", "kind": kind, "val": name})
     # structure-aware damage of the serialised index (object id of an entry becomes another object's,
